@@ -6,7 +6,7 @@ import ShellOp.Model.HookRun
 * `exec <eid> allow=<0|1> exit=<n> metrics=<class> adm=<class> conv=<class> patch=<class>` — one
   execution with scripted outputs; the model runs `Run` + `handleRunHook` on its temp directory and
   answers with status and effects.
-* `prepfail <eid> created=<k>` — the (k+1)-th temp file cannot be created (the execution counts for
+* `prepfail <eid> created=<k> [allow=<0|1>]` — the (k+1)-th temp file cannot be created (the execution counts for
   the names/leftover oracles as one that drew no names).
 * `tmpdir` — number of files in the temp directory now.
 * `oracle outcome|env|tmpdir|unique …` — the property on what the implementation showed.
@@ -86,13 +86,18 @@ def step (st : S) (toks : List String) : S × String :=
       ({ st with dir := r.dir, execs := st.execs ++ [⟨eid, allow, out⟩] },
         showOutcome (taskStatusFail allow h) h.patchExecuted h.metricsSent h.admissionProp h.conversionProp)
     | _, _ => (st, "bad-op")
-  | ["prepfail", eid, c] =>
-    match eid.toNat?, (kv? "created" [c]).bind String.toNat? with
-    | some eid, some k =>
+  | "prepfail" :: eid :: c :: rest =>
+    -- optional `allow=<0|1>` (default 0): the task's allowFailure
+    let allow? : Option Bool := match rest with
+      | [] => some false
+      | [a] => (kv? "allow" [a]).bind bool?
+      | _ => none
+    match eid.toNat?, (kv? "created" [c]).bind String.toNat?, allow? with
+    | some eid, some k, some allow =>
       let r := run st.keep (namesFor eid) (List.replicate k true ++ [false]) ⟨0, .none, .none, .none, .empty⟩ st.dir
       ({ st with dir := r.dir },
-        s!"status={if (handle r).failed then "Fail" else "Success"} started={b01 r.started} leftover={r.dir.length}")
-    | _, _ => (st, "bad-op")
+        s!"status={if taskStatusFail allow (handle r) then "Fail" else "Success"} started={b01 r.started} leftover={r.dir.length}")
+    | _, _, _ => (st, "bad-op")
   | ["tmpdir"] => (st, s!"leftover={st.dir.length}")
   | "oracle" :: "outcome" :: rest =>
     -- the contract: fails iff exit ≠ 0 or an output is malformed / cannot be applied; outputs are
